@@ -8,19 +8,21 @@ manages polling based on target capacity and re-polls after work completion.
 from __future__ import annotations
 
 import logging
-from dataclasses import dataclass
+from dataclasses import dataclass, field
 from typing import TYPE_CHECKING
 
 from happysimulator.components.queue import QueueDeliverEvent, QueueNotifyEvent, QueuePollEvent
 from happysimulator.core.entity import Entity
+from happysimulator.core.event import Event
 
 if TYPE_CHECKING:
     from collections.abc import Generator
 
-    from happysimulator.core.event import Event
     from happysimulator.core.temporal import Instant
 
 logger = logging.getLogger(__name__)
+
+_DRIVER_RECHECK = "QUEUE_DRIVER_RECHECK"
 
 
 @dataclass
@@ -48,6 +50,13 @@ class QueueDriver(Entity):
     queue: Entity = None
     target: Entity = None
 
+    # Poll bookkeeping. target.has_capacity() cannot know about a poll that is
+    # still on its way to the queue or an item still on its way to the target,
+    # so the driver keeps at most one poll outstanding and does not poll again
+    # before the delivered item has reached the target.
+    _poll_outstanding: bool = field(default=False, init=False, repr=False)
+    _in_transit: int = field(default=0, init=False, repr=False)
+
     def downstream_entities(self) -> list[Entity]:
         result: list[Entity] = []
         if self.target is not None:
@@ -61,10 +70,26 @@ class QueueDriver(Entity):
         if isinstance(event, QueueDeliverEvent):
             return self._handle_delivery(event)
 
+        if event.event_type == _DRIVER_RECHECK:
+            return self._handle_recheck()
+
         return []
+
+    def _poll(self, time: Instant) -> list[Event]:
+        """Poll unless a poll is outstanding, an item is in transit, or the target is full."""
+        if self._poll_outstanding or self._in_transit > 0 or not self.target.has_capacity():
+            return []
+        self._poll_outstanding = True
+        return [QueuePollEvent(time=time, target=self.queue, requestor=self)]
+
+    def _handle_recheck(self) -> list[Event]:
+        """The delivered item has reached the target; poll again if it still has room."""
+        self._in_transit = max(0, self._in_transit - 1)
+        return self._poll(self.now)
 
     def _handle_delivery(self, event: QueueDeliverEvent) -> list[Event]:
         """Queue delivered one payload event; clone/retarget and re-emit."""
+        self._poll_outstanding = False
         if event.payload is None:
             logger.debug("[%s] Received empty delivery", self.name)
             return []
@@ -77,23 +102,20 @@ class QueueDriver(Entity):
 
     def _handle_work_payload(self, payload: Event) -> list[Event]:
         def schedule_poll(time: Instant):
-            if self.target.has_capacity():
-                logger.debug("[%s] Target has capacity, scheduling poll", self.name)
-                return QueuePollEvent(time=time, target=self.queue, requestor=self)
-            logger.debug("[%s] Target at capacity, deferring poll", self.name)
-            return None
+            return self._poll(time) or None
 
         target_event = payload
         target_event.time = self.now
         target_event.target = self.target
         target_event.add_completion_hook(schedule_poll)
-        return [target_event]
+        # Re-check right after the target has received the item (same instant,
+        # created later, hence processed later): more queued work may fit.
+        self._in_transit += 1
+        recheck = Event(
+            time=self.now, event_type=_DRIVER_RECHECK, target=self, daemon=payload.daemon
+        )
+        return [target_event, recheck]
 
     def _handle_notify(self, _: QueueNotifyEvent) -> list[Event]:
         """Queue has work available—poll if target has capacity."""
-        if not self.target.has_capacity():
-            logger.debug("[%s] Notify received but target at capacity", self.name)
-            return []
-
-        logger.debug("[%s] Notify received, polling queue", self.name)
-        return [QueuePollEvent(time=self.now, target=self.queue, requestor=self)]
+        return self._poll(self.now)
